@@ -328,6 +328,15 @@ class CallsMixin:
                 if s2 is not None:
                     v = h.item(a, n - 1)
                     outs.append((s2.with_heap(h.set_list(a, h.elems(a), n - 1)), v))
+            elif name == 'pop' and len(pos) == 1 and z3.is_true(z3.simplify(Z.is_i(pos[0]))) and z3.is_int_value(z3.simplify(Z.ival(pos[0]))) \
+                    and z3.simplify(Z.ival(pos[0])).as_long() == 0:
+                # pop(0): the first item; the rest shifts down
+                s2 = self.guard(s, n > 0, 'IndexError', 'pop from empty list')
+                if s2 is not None:
+                    v = h.item(a, z3.IntVal(0))
+                    k = z3.Int('k!pop0')
+                    arr = z3.Lambda([k], z3.simplify(z3.Select(h.elems(a), k + 1)))      # (beta-reduces when the list is itself a shifted view)
+                    outs.append((s2.with_heap(h.set_list(a, arr, n - 1)), v))
             elif name == 'copy' and not pos:
                 h2, r = h.new_list(h.elems(a), n)
                 outs.append((s.with_heap(h2), Z.mk_ref(r)))
@@ -1233,6 +1242,18 @@ class CallsMixin:
         self.sum_terms.append((st.heap.elems(a), n))
         return Z.mk_r(Z.SUMR(st.heap.elems(a), n))
 
+    def spec_sum_over(self, node, st):
+        """sum_over(n, lambda i: e) = sum_{0 <= i < n} num(e(i))"""
+        n = Z.ival(self.ev1(node.args[0], st))
+        lam = node.args[1]
+        k = z3.Int('k!so_%d_%d' % (node.lineno, node.col_offset))
+        env = dict(st.env)
+        env[lam.args.args[0].arg] = Z.mk_i(k)
+        body = self.ev1(lam.body, st.clone(env=env))
+        arr = z3.Lambda([k], body)
+        self.sum_terms.append((arr, n))
+        return Z.mk_r(Z.SUMR(arr, n))
+
     def spec_range_sum(self, node, st):
         """range_sum('F', first, count, step) = sum_{k<count} num(F(first + k*step)) for the uninterpreted F"""
         name = node.args[0].value
@@ -1331,6 +1352,21 @@ class CallsMixin:
         args = [self.ev1(a, st) for a in node.args[1:]]
         f = z3.Function('I_' + name, *([Val] * len(args) + [I]))
         return Z.mk_i(f(*args))
+
+    def spec_ureal(self, node, st):
+        """ureal('NAME', args...): uninterpreted real-valued function; integer-valued arguments are passed as Int terms"""
+        name = node.args[0].value
+        args = [self.ev1(a, st) for a in node.args[1:]]
+        targs = []
+        for a in args:
+            # references (lists, objects) are passed as they are, every other argument by its numeric value (5 and 5.0 are the same argument)
+            isref = z3.simplify(Z.is_ref(a))
+            if z3.is_true(isref) or (not z3.is_false(isref) and st.implies(Z.is_ref(a))):
+                targs.append(a)
+            else:
+                targs.append(Z.num(a))
+        f = z3.Function('R_' + name, *([t.sort() for t in targs] + [z3.RealSort()]))
+        return Z.mk_r(f(*targs))
 
     def spec_str_lower(self, node, st):
         (a,) = self._sargs(node, st)
